@@ -556,9 +556,11 @@ func TestC18IDVolume(t *testing.T) {
 		for _, id := range l {
 			total++
 			if id == "" {
+				stats.Violation("TestC18IDVolume", map[string]interface{}{"message": "empty generated id", "events": n})
 				t.Fatalf("VIOLATION C18: empty generated id")
 			}
 			if _, dup := seen[id]; dup {
+				stats.Violation("TestC18IDVolume", map[string]interface{}{"message": fmt.Sprintf("generated id %q occurs twice among %d events", id, total), "events": n})
 				t.Fatalf("VIOLATION C18: generated id %q occurs twice among %d events", id, total)
 			}
 			seen[id] = struct{}{}
